@@ -1418,6 +1418,43 @@ def search_stereo(ck):
                           replay_py=f'from chython import smiles, smarts; print(list(smarts({s_!r}).get_mapping(smiles({ttxt!r}), _cython=False)))')
 
 
+SELF_TEXTS = ['[C@](F)(Cl)(Br)I', 'F[C@](Cl)(Br)I', 'F[C@]1(Cl)CC1C', 'C1C(C)[C@]1(F)Cl', 'C[C@]1(F)CCCC1Cl', '[C@]12(F)CC1CCC2', 'C[C@](F)(Cl)CC',
+              'F/C=C/F', 'C/C=C(/F)Cl', '[C@]1(F)(Cl)CC1C', '[C@@]1(F)(Cl)CC1C', 'C[C@@]1(F)CC1(C)C', 'F[C@@]1(Cl)CCC1C']
+
+
+def search_self_text(ck):
+    """a text in the common SMILES / SMARTS sub-language (element symbols, no hydrogens in brackets): the molecule it denotes matches the
+    query it denotes, stereo included; RDKit (useChirality) confirms the expectation for every text before it is used"""
+    import re
+    from chython import smiles, smarts
+    try:
+        from rdkit import Chem, RDLogger
+        RDLogger.DisableLog('rdApp.*')
+    except Exception:  # noqa
+        return
+    bad = []
+    for x in SELF_TEXTS:
+        rm, rq = Chem.MolFromSmiles(x), Chem.MolFromSmarts(x)
+        if rm is None or rq is None or not rm.GetSubstructMatches(rq, useChirality=True):
+            ck.count('search:self-text:not-confirmed-by-rdkit')
+            continue
+        t, q = smiles(x), smarts(x)
+        if not has_stereo(t):
+            continue
+        got, err = drain(q.get_mapping(t, automorphism_filter=False, _cython=False))
+        ck.case(('search-self-text', x), nontrivial=True)
+        ck.count(f'search:self-text:{"ok" if got else "fails"}')
+        if not got:
+            bad.append((0 if re.search(r'\[C@@?\]\d', x) else 1, len(x), x, err))
+    for kind, _, x, err in sorted(bad)[:1]:
+        ck.counterexample('smarts-ring-closure-chirality-order' if kind == 0 else f'self-text:{x}',
+                          'a molecule does not match its own text read as a query: smarts() stores another chirality sign than smiles() for the same text '
+                          '(ring-closure digit written directly after the chiral atom: its bond is the FIRST neighbour for SMILES, the last for the SMARTS reader)',
+                          {'text': x}, err or 'no mapping', 'at least the identity mapping (RDKit useChirality finds it)', 'RDKit self-match with useChirality=True',
+                          replay_py=f'from chython import smiles, smarts; t = smiles({x!r}); q = smarts({x!r}); '
+                                    'print([a.stereo for _, a in t.atoms()], [a.stereo for _, a in q.atoms()], list(q.get_mapping(t, _cython=False)))')
+
+
 def search_match_stereo(ck):
     """pattern.get_mapping(target, match_stereo=True, automorphism_filter=False) against RDKit: the pattern molecule as RDKit query with
     useChirality=True (re-filtered to induced matches), on comparable pairs only (connected pattern without allene centres, every
@@ -1641,6 +1678,7 @@ def search(ck):
     search_automorphism(ck, [('C.C', smiles('C.C'))] + targets)
     search_stereo(ck)
     search_match_stereo(ck)
+    search_self_text(ck)
     search_rdkit(ck, [(x, smiles(x)) for x in RDKIT_TARGETS] + [(x, m) for x, m in targets if '.' not in x])
     ck.extra['search_pairs'] = npairs
 
